@@ -21,6 +21,7 @@ import (
 	"github.com/go-git/go-git/v6/plumbing/format/commitgraph"
 	"github.com/go-git/go-git/v6/plumbing/format/index"
 	"github.com/go-git/go-git/v6/plumbing/format/packfile"
+	"github.com/go-git/go-git/v6/plumbing/format/revfile"
 	githash "github.com/go-git/go-git/v6/plumbing/hash"
 	"github.com/go-git/go-git/v6/storage/filesystem"
 	"github.com/go-git/go-git/v6/storage/memory"
@@ -79,8 +80,14 @@ func c05EntryPoints(c *fw.Ctx) []c05EP {
 		if err != nil {
 			return nil, h, h, err
 		}
+		// a second, similar blob: with a delta window the encoder stores one of the two as a delta of the other, so
+		// the ids of delta-resolved objects (parser, pack reader) are exercised too
+		h2, err := ms.SetEncodedObject(mkBlob(ms, c05Sibling(content)))
+		if err != nil {
+			return nil, h, h, err
+		}
 		var buf bytes.Buffer
-		sum, err := packfile.NewEncoder(&buf, ms, false).Encode([]plumbing.Hash{h}, 10)
+		sum, err := packfile.NewEncoder(&buf, ms, false).Encode([]plumbing.Hash{h, h2}, 10)
 		return buf.Bytes(), sum, h, err
 	}
 	return []c05EP{
@@ -184,6 +191,67 @@ func c05EntryPoints(c *fw.Ctx) []c05EP {
 			}
 			return b[len(b)-20:], [][]byte{b[:len(b)-20]}, nil
 		}},
+		{"plumbing.MemoryObject.Hash", func(v []byte) ([]byte, [][]byte, error) {
+			o := &plumbing.MemoryObject{}
+			o.SetType(plumbing.BlobObject)
+			o.Write(v)
+			return o.Hash().Bytes(), [][]byte{hdr("blob", len(v)), v}, nil
+		}},
+		{"filesystem pack read: ids of plain and delta-resolved objects, object iteration (idx decode)", func(v []byte) ([]byte, [][]byte, error) {
+			return c05PackRead(v, encodePack, false)
+		}},
+		{"filesystem pack read without .rev (rev regenerated from the idx)", func(v []byte) ([]byte, [][]byte, error) {
+			return c05PackRead(v, encodePack, true)
+		}},
+		{"revfile.Decode of the written .rev", func(v []byte) ([]byte, [][]byte, error) {
+			pack, sum, _, err := encodePack(v)
+			if err != nil {
+				return nil, nil, err
+			}
+			w := mcfs.NewWorld()
+			st := filesystem.NewStorage(w.View("/g", "g"), cache.NewObjectLRUDefault())
+			pw, err := st.PackfileWriter()
+			if err != nil {
+				return nil, nil, err
+			}
+			pw.Write(pack)
+			if err := pw.Close(); err != nil {
+				return nil, nil, err
+			}
+			b, ok := w.ReadFile("/g/objects/pack/pack-" + sum.String() + ".rev")
+			if !ok {
+				return nil, nil, fmt.Errorf("no .rev written")
+			}
+			// the trailer is the registered hash of the body (checked by the PackfileWriter entry point); the decoder must accept it
+			out := make(chan uint32, 16)
+			done := make(chan struct{})
+			go func() {
+				for range out {
+				}
+				close(done)
+			}()
+			err = revfile.Decode(bytes.NewReader(b), 2, sum, out)
+			<-done
+			if err != nil {
+				return nil, nil, fmt.Errorf("revfile.Decode rejects a .rev whose trailer is the registered hash of its contents: %v", err)
+			}
+			// and it must reject the same file with a trailer that is not the registered hash
+			bad := append([]byte{}, b...)
+			bad[len(bad)-1] ^= 0x5a
+			out2 := make(chan uint32, 16)
+			done2 := make(chan struct{})
+			go func() {
+				for range out2 {
+				}
+				close(done2)
+			}()
+			err = revfile.Decode(bytes.NewReader(bad), 2, sum, out2)
+			<-done2
+			if err == nil {
+				return nil, nil, fmt.Errorf("revfile.Decode accepts a .rev whose trailer is not the registered hash of its contents")
+			}
+			return b[len(b)-20:], [][]byte{b[:len(b)-20]}, nil
+		}},
 		{"commitgraph.Encoder trailer", func(v []byte) ([]byte, [][]byte, error) {
 			mi := commitgraph.NewMemoryIndex()
 			h, _ := plumbing.FromObjectFormat(formatcfg.SHA1).Compute(plumbing.BlobObject, v)
@@ -196,6 +264,88 @@ func c05EntryPoints(c *fw.Ctx) []c05EP {
 			return b[len(b)-20:], [][]byte{b[:len(b)-20]}, nil
 		}},
 	}
+}
+
+// c05Sibling is content with a short tail appended (or a fixed string for short content): similar enough to be
+// deltified against content.
+func c05Sibling(content []byte) []byte {
+	return append(append([]byte{}, content...), []byte("\nsibling tail\n")...)
+}
+
+// c05PackRead writes a two-object pack (one object a delta) through the PackfileWriter, optionally removes the
+// .rev file, and reads everything back through a fresh storage: lookups by id, iteration over all objects, the
+// id every returned object reports. The returned digest is the id of the blob holding v.
+func c05PackRead(v []byte, encodePack func([]byte) ([]byte, plumbing.Hash, plumbing.Hash, error), dropRev bool) ([]byte, [][]byte, error) {
+	pack, sum, oid, err := encodePack(v)
+	if err != nil {
+		return nil, nil, err
+	}
+	w := mcfs.NewWorld()
+	st := filesystem.NewStorage(w.View("/g", "g"), cache.NewObjectLRUDefault())
+	pw, err := st.PackfileWriter()
+	if err != nil {
+		return nil, nil, err
+	}
+	if _, err := pw.Write(pack); err != nil {
+		return nil, nil, fmt.Errorf("pack write: %v", err)
+	}
+	if err := pw.Close(); err != nil {
+		return nil, nil, fmt.Errorf("pack close: %v", err)
+	}
+	if dropRev {
+		w.RemoveSetup("/g/objects/pack/pack-" + sum.String() + ".rev")
+	}
+	st2 := filesystem.NewStorage(w.View("/g", "g2"), cache.NewObjectLRUDefault())
+	defer st2.Close()
+	sib := c05Sibling(v)
+	var got []byte
+	seen := 0
+	it, err := st2.IterEncodedObjects(plumbing.AnyObject)
+	if err != nil {
+		return nil, nil, fmt.Errorf("iterate: %v", err)
+	}
+	err = it.ForEach(func(o plumbing.EncodedObject) error {
+		r, err := o.Reader()
+		if err != nil {
+			return err
+		}
+		b, err := io.ReadAll(r)
+		r.Close()
+		if err != nil {
+			return err
+		}
+		want := registeredSum(append([]byte(fmt.Sprintf("blob %d\x00", len(b))), b...))
+		if !bytes.Equal(o.Hash().Bytes(), want) {
+			return fmt.Errorf("iterated object of %d bytes reports id %s, the registered hash of its contents is %x", len(b), o.Hash(), want)
+		}
+		switch {
+		case bytes.Equal(b, v):
+			got = o.Hash().Bytes()
+			seen++
+		case bytes.Equal(b, sib):
+			seen++
+		}
+		return nil
+	})
+	if err != nil {
+		return nil, nil, err
+	}
+	if seen != 2 {
+		return nil, nil, fmt.Errorf("iteration returned %d of the 2 packed objects", seen)
+	}
+	for _, content := range [][]byte{v, sib} {
+		id := registeredSum(append([]byte(fmt.Sprintf("blob %d\x00", len(content))), content...))
+		h, _ := plumbing.FromBytes(id)
+		o, err := st2.EncodedObject(plumbing.BlobObject, h)
+		if err != nil {
+			return nil, nil, fmt.Errorf("packed object %x (registered hash of its contents) not found: %v", id, err)
+		}
+		if o.Hash() != h {
+			return nil, nil, fmt.Errorf("packed object looked up as %s reports id %s", h, o.Hash())
+		}
+	}
+	_ = oid
+	return got, [][]byte{[]byte(fmt.Sprintf("blob %d\x00", len(v))), v}, nil
 }
 
 func registeredSum(b []byte) []byte {
@@ -232,6 +382,19 @@ func c05PackWriter(v []byte, encodePack func([]byte) ([]byte, plumbing.Hash, plu
 	return b[len(b)-20:], [][]byte{b[:len(b)-20]}, nil
 }
 
+// types26 renders a receiver expression for the report.
+func types26(e ast.Expr) string {
+	switch x := e.(type) {
+	case *ast.Ident:
+		return x.Name
+	case *ast.SelectorExpr:
+		return types26(x.X) + "." + x.Sel.Name
+	case *ast.CallExpr:
+		return types26(x.Fun) + "()"
+	}
+	return fmt.Sprintf("%T", e)
+}
+
 // c05StaticScan lists direct constructions of SHA-1/SHA-256 outside plumbing/hash.
 func c05StaticScan(repo string) ([]string, int, error) {
 	var hits []string
@@ -258,13 +421,46 @@ func c05StaticScan(repo string) ([]string, int, error) {
 		}
 		files++
 		var fn string
+		pkgs := map[string]bool{}
+		for _, im := range f.Imports {
+			ip := strings.Trim(im.Path.Value, "\"")
+			name := ip[strings.LastIndex(ip, "/")+1:]
+			if im.Name != nil {
+				name = im.Name.Name
+			}
+			pkgs[name] = true
+			// a hash implementation imported by name outside the registry package (a blank import only links it in)
+			if (ip == "crypto/sha1" || ip == "crypto/sha256" || ip == "github.com/pjbgf/sha1cd" || strings.HasPrefix(ip, "github.com/pjbgf/sha1cd/")) && name != "_" {
+				hits = append(hits, fmt.Sprintf("%s: import %s", rel, ip))
+			}
+		}
+		called := map[ast.Expr]bool{}
 		ast.Inspect(f, func(n ast.Node) bool {
 			if d, ok := n.(*ast.FuncDecl); ok {
 				fn = d.Name.Name
 			}
+			if sel, ok := n.(*ast.SelectorExpr); ok && sel.Sel.Name == "New" && !called[sel] {
+				// crypto.SHA1.New used as a value (stored, passed on, called later)
+				if in, ok := sel.X.(*ast.SelectorExpr); ok {
+					if pk, ok := in.X.(*ast.Ident); ok && pk.Name == "crypto" && (in.Sel.Name == "SHA1" || in.Sel.Name == "SHA256") {
+						hits = append(hits, fmt.Sprintf("%s: %s: crypto.%s.New (method value)", rel, fn, in.Sel.Name))
+					}
+				}
+			}
 			call, ok := n.(*ast.CallExpr)
 			if !ok {
 				return true
+			}
+			if sel, ok := call.Fun.(*ast.SelectorExpr); ok {
+				called[sel] = true
+				// <expr>.New() with no argument where <expr> is not a package: the shape of crypto.Hash.New() on a
+				// variable / field / call result (no other zero-argument New method exists in the tree)
+				if sel.Sel.Name == "New" && len(call.Args) == 0 {
+					id, isIdent := sel.X.(*ast.Ident)
+					if _, viaCrypto := sel.X.(*ast.SelectorExpr); !(isIdent && pkgs[id.Name]) && !(viaCrypto && strings.Contains(types26(sel.X), "crypto.SHA")) {
+						hits = append(hits, fmt.Sprintf("%s: %s: %s.New() on a value (crypto.Hash?)", rel, fn, types26(sel.X)))
+					}
+				}
 			}
 			sel, ok := call.Fun.(*ast.SelectorExpr)
 			if !ok {
@@ -289,7 +485,7 @@ func c05StaticScan(repo string) ([]string, int, error) {
 }
 
 func runC05(c *fw.Ctx) {
-	c.SetRule("finite product: 12 SHA-1 entry points x {4 published collision files, 3 ordinary strings} x registry state {default, spy registered through hash.RegisterHash}; (1) default registry: the raw hash behind hash.New/FromObjectFormat fed a colliding file under every 2-chunking at each of the first 640 offsets must not return the attacker's digest and must equal sha1cd; (2) spy registry (collision-detecting SHA-1 with a recognisably altered digest): every entry point's digest must be the spy's digest over exactly the bytes it covers, so an entry point bypassing the registry (and hence the documented collision-detecting default) is caught; (3) go/ast scan of non-test sources for direct crypto.SHA1/SHA256.New(), sha1.New/Sum outside plumbing/hash. distinct = (entry point, vector, registry) triples with distinct digests")
+	c.SetRule("finite product: 16 SHA-1 entry points (object hashers, MemoryObject, loose objects, pack encoder/parser, PackfileWriter idx/rev, pack read-back with a delta-resolved object and object iteration, rev regeneration when .rev is missing, revfile.Decode, index, commit-graph) x {4 published collision files, 3 ordinary strings} x registry state {default, spy registered through hash.RegisterHash}; (1) default registry: the raw hash behind hash.New/FromObjectFormat fed a colliding file under every 2-chunking at each of the first 640 offsets must not return the attacker's digest and must equal sha1cd; (2) spy registry (collision-detecting SHA-1 with a recognisably altered digest): every entry point's digest must be the spy's digest over exactly the bytes it covers, so an entry point bypassing the registry (and hence the documented collision-detecting default) is caught; (3) go/ast scan of non-test sources outside plumbing/hash for direct crypto.SHA1/SHA256.New(), sha1.New/Sum, crypto.SHAx.New used as a value, a zero-argument .New() on anything that is not a package (crypto.Hash held in a variable or field), and named imports of crypto/sha1, crypto/sha256, sha1cd. distinct = (entry point, vector, registry) triples with distinct digests")
 	c.Assume("sha1cd v0.6.0 is the collision-detecting reference; vectors are the SHAttered PDFs and the SHA-mbles files from sha1cd's test data (copied to /verif/vectors)")
 	type vec struct {
 		name string
